@@ -158,7 +158,7 @@ func runC09(c *Ctx) {
 		}))
 		okAddrs := len(okRet) > 0
 		for _, s := range okRet {
-			base := stripValue(s.Instr.(*ssa.Return).Results[0])
+			base := stripValue(retResult(s.Instr.(*ssa.Return), 0))
 			n := 0
 			eachInstr(fn, func(in ssa.Instruction) {
 				if st, ok := in.(*ssa.Store); ok {
